@@ -1,7 +1,7 @@
 """Shared vocabulary for the rule files: canonical terms of this code base, event
 classification (replies, cross-user sends, state effects) and small query helpers."""
 from analysis import ir, sym
-from analysis.formula import T, F, And, Or, Not, Atom, entails, equivalent, show, show_term, atoms, sat
+from analysis.formula import T, F, And, Or, Not, Atom, entails, equivalent, show, show_term, atoms, sat, conjuncts, subst, rename
 from analysis.report import AnchorLost
 
 CONN = ('param', 'conn_state')
